@@ -1,5 +1,5 @@
 import OZ.DrvUtil
-import OZ.Model.Access
+import OZ.Model.AccessMon
 /-
 Driver for C06 (roles, role admins, admin / owner guards, enumeration).
 
@@ -19,16 +19,17 @@ Observation:
          xr=<idx:block;..|-> ex=<existing roles|-> ev=<events|->
   block = count/members by index/index of accounts 0..N-1/F (get_role_member(count) failed) or S<a>
 
-`op` runs the model. `mon` keeps only the plain set of (account, role) pairs
-(OZ.Access.setStep fed with the implementation's outcomes) and the previously observed
-admin / owner / role admins, and evaluates the conclusions of Props/C06 on the
-implementation's observations.
+`op` runs the model. `mon` never does: it only PARSES the op / observation lines and calls
+`OZ.Access.Mon.checkCore` (OZ/Model/AccessMon.lean), which keeps the plain set of (account, role)
+pairs (OZ.Access.setStep fed with the implementation's outcomes), the previously observed
+admin / owner / role admins and two more ghost logs, and evaluates the conclusions of Props/C06 on
+the implementation's observations. `checkCore` is proved sound in OZ/Props/C06Mon.lean
+(`monitor_accepts_every_model_trace`). Not covered by that theorem (string level, trusted):
+`parseOp`, `parseObs` (the observation grammar; `site=ac.parse`) and the fact that `parseObs`
+applied to the line `stepLine` prints yields `OZ.Access.Mon.modelObs` of the printed state.
 -/
 namespace OZ.Drv.C06
-open OZ.Drv OZ.Access OZ.Host
-
-def N : Nat := 5      -- accounts 0..N-1
-def R : Nat := 5      -- roles 0..R-1 are always displayed
+open OZ.Drv OZ.Access OZ.Access.Mon OZ.Host
 
 structure M where
   cfg : Cfg
@@ -90,20 +91,11 @@ def parseOp (ws : List String) : Option (List Nat × Op) :=
 def extraRoles (ws : List String) : List Nat :=
   ((["r", "ar"].filterMap (kvNat? ws)).filter (· ≥ R)).eraseDups
 
-def showOpt (o : Option Nat) : String := match o with | some a => toString a | none => "-"
-
-def showRole (s : State) (r : Nat) : String :=
-  let c := cnt s r
-  let mem := (List.range c).map (fun i => match getRoleMember s r i with | .ok a => toString a | .error _ => "?")
-  let idx := (List.range N).map (fun a => showOpt (hasRoleQ s a r))
-  let oob := match getRoleMember s r c with | .ok a => s!"S{a}" | .error _ => "F"
-  s!"{c}/{showList id mem}/{",".intercalate idx}/{oob}"
-
+/-- the observation line of a state; `showHolders`, `showRoles`, `showExisting` (OZ/Model/AccessMon.lean)
+are the persistent part (`OZ.Access.Mon.persistStr`) -/
 def showState (s : State) (xr : List Nat) : String :=
-  let ra := (List.range R).map (fun r => showOpt (getRoleAdmin s r))
-  let roles := (List.range R).map (showRole s)
   let x := if xr.isEmpty then "-" else ";".intercalate (xr.map (fun r => s!"{r}:{showRole s r}"))
-  s!"admin={showOpt (getAdmin s)} owner={showOpt s.own.holder} now={s.adm.now} ra={",".intercalate ra} roles={";".intercalate roles} xr={x} ex={showList toString (getExistingRoles s)}"
+  s!"{showHolders s} now={s.adm.now} {showRoles s} xr={x} {showExisting s}"
 
 def showEvent (empty : Option Nat) : Event → String
   | .roleGranted r a k => s!"grant:{r}:{a}:{k}"
@@ -131,22 +123,6 @@ def stepLine (m : M) (line : String) : M × String :=
 
 /-! ### monitor -/
 
-structure RoleObs where
-  role : Nat
-  count : Nat
-  members : List (Option Nat)
-  idx : List (Option Nat)       -- per account 0..N-1
-  oob : String
-
-structure Obs where
-  ok : Bool
-  admin : Option Nat
-  owner : Option Nat
-  ra : List (Option Nat)
-  roles : List RoleObs
-  ex : List Nat
-  stateStr : String             -- the persistent part: everything but the tag, `now=`, `xr=`, `ev=`
-
 def optList (s : String) : List (Option Nat) :=
   if s = "" ∨ s = "-" then [] else (s.splitOn ",").map String.toNat?
 
@@ -173,152 +149,13 @@ def parseObs (line : String) : Option Obs :=
            ra, roles := base ++ extra, ex := natList ((kv? rest "ex").getD "-"), stateStr := st }
   | _ => none
 
-structure Mon where
-  g : PSet                     -- plain set of granted-not-revoked pairs (from accepted calls)
-  touched : List Nat           -- roles ever named by a membership op (to check `ex` both ways)
-  admin : Option Nat
-  owner : Option Nat
-  ra : List (Option Nat)
-  stateStr : String
-  first : Bool
-
 def minit (label : String) : Mon :=
   let ws := words label
-  { g := fun _ _ => false, touched := [], admin := optNat ws "admin", owner := optNat ws "owner",
-    ra := List.replicate R none, stateStr := "", first := true }
-
-def inAuth (p : Option Nat) (auth : List Nat) : Bool :=
-  match p with | some a => auth.contains a | none => false
-
-/-- may `k` grant / revoke `r` according to the previously OBSERVED admin and role admins and
-the plain membership set? (roles ≥ R have no displayed role admin: only the admin counts,
-unless the harness displays them — it never sets admins for such roles) -/
-def mayAdminister (m : Mon) (r k : Nat) : Bool :=
-  m.admin = some k ||
-  (match m.ra[r]? with
-   | some (some ar) => m.g k ar
-   | _ => false)
-
-def nodupB (l : List Nat) : Bool := l.eraseDups.length = l.length
-
-/-- refinement check of one displayed role against the plain set -/
-def checkRole (g : PSet) (ex : List Nat) (ro : RoleObs) : Option String :=
-  let r := ro.role
-  let accs := List.range N
-  let mem := ro.members.filterMap id
-  if mem.length ≠ ro.members.length then some s!"site=ac.enum.gap role {r}: get_role_member fails below the count"
-  else if ro.members.length ≠ ro.count then some s!"site=ac.enum.count role {r}: count {ro.count} but {ro.members.length} members"
-  else if ¬ nodupB mem then some s!"site=ac.enum.dup role {r}: an account is enumerated twice: {mem}"
-  else if ro.oob ≠ "F" then some s!"site=ac.enum.oob role {r}: get_role_member(count) answered {ro.oob}"
-  else if accs.any (fun a => ((ro.idx[a]?.getD none).isSome) != g a r) then
-    some s!"site=ac.set.has_role role {r}: has_role differs from the granted-not-revoked set"
-  else if mem.any (fun a => ¬ (a < N ∧ g a r)) ∨ accs.any (fun a => g a r ∧ ¬ mem.contains a) then
-    some s!"site=ac.set.members role {r}: enumerated members {mem} differ from the granted-not-revoked set"
-  else if accs.any (fun a => match ro.idx[a]?.getD none with | some i => mem[i]? != some a | none => false) then
-    some s!"site=ac.enum.index role {r}: has_role index does not point at the account"
-  else if (ex.contains r) != decide (ro.count > 0) then
-    some s!"site=ac.existing role {r}: listed in existing roles = {ex.contains r} but count = {ro.count}"
-  else none
-
-def firstSome {α} (l : List α) (f : α → Option String) : Option String :=
-  l.foldl (fun acc x => match acc with | some e => some e | none => f x) none
-
-def verdict (m : Mon) (auth : List Nat) (op : Op) (o : Obs) : Option String :=
-  if ¬ o.ok then
-    if ¬ m.first ∧ o.stateStr ≠ m.stateStr then some "site=ac.rollback a rejected call changed the observable state"
-    else match op with
-      | .adm .guarded => if inAuth m.admin auth then some "site=ac.only_admin.refused the admin authorized but was refused" else none
-      | .own .guarded => if inAuth m.owner auth then some "site=ac.only_owner.refused the owner authorized but was refused" else none
-      | .onlyRole k r b => if m.g k r ∧ auth.contains k ∧ b then some "site=ac.only_role.refused a role holder authorized but was refused" else none
-      | .hasRole k r ba b => if m.g k r ∧ (¬ ba ∨ auth.contains k) ∧ b then some "site=ac.has_role.refused a role holder was refused by a #[has_role] function" else none
-      | .hasAnyRole k rs ba => if rs.any (fun r => m.g k r) ∧ (¬ ba ∨ auth.contains k) then some "site=ac.has_any_role.refused a role holder was refused by a #[has_any_role] function" else none
-      | .onlyAnyRole k rs => if rs.any (fun r => m.g k r) ∧ auth.contains k then some "site=ac.only_any_role.refused a role holder authorized but was refused" else none
-      | .ensureAdminOrRole r k => if mayAdminister m r k then some "site=ac.ensure_admin_or_role.refused the admin / a role-admin holder was refused" else none
-      | _ => none
-  else
-    match op with
-    | .grant a r k =>
-      if ¬ auth.contains k then some s!"site=ac.grant.no-auth grant({a},{r}) accepted without the caller {k} authorizing"
-      else if ¬ mayAdminister m r k then some s!"site=ac.grant.unauthorized grant({a},{r}) accepted from {k}, neither admin nor holder of the role's admin role"
-      else none
-    | .revoke a r k =>
-      if ¬ auth.contains k then some s!"site=ac.revoke.no-auth revoke({a},{r}) accepted without the caller {k} authorizing"
-      else if ¬ mayAdminister m r k then some s!"site=ac.revoke.unauthorized revoke({a},{r}) accepted from {k}, neither admin nor holder of the role's admin role"
-      else if ¬ m.g a r then some "site=ac.revoke.nonmember revoke of a pair that was not granted accepted"
-      else none
-    | .renounce r k =>
-      if ¬ auth.contains k then some s!"site=ac.renounce.no-auth renounce({r}) accepted without its holder {k} authorizing"
-      else if ¬ m.g k r then some "site=ac.renounce.nonmember renounce of a role not held accepted"
-      else none
-    | .revokeNoAuth a r _ => if ¬ m.g a r then some "site=ac.revoke.nonmember revoke of a pair that was not granted accepted" else none
-    | .setRoleAdmin _ _ => if ¬ inAuth m.admin auth then some "site=ac.set_role_admin.unauthorized set_role_admin accepted without the admin's authorization" else none
-    | .adm .guarded => if ¬ inAuth m.admin auth then some "site=ac.only_admin.unauthorized an #[only_admin] function ran without the admin's authorization" else none
-    | .own .guarded => if ¬ inAuth m.owner auth then some "site=ac.only_owner.unauthorized an #[only_owner] function ran without the owner's authorization" else none
-    | .adm (.offer _ _) => if ¬ inAuth m.admin auth then some "site=ac.admin.offer.unauthorized admin transfer initiated without the admin's authorization" else none
-    | .adm .renounce => if ¬ inAuth m.admin auth then some "site=ac.admin.renounce.unauthorized" else none
-    | .own (.offer _ _) => if ¬ inAuth m.owner auth then some "site=ac.owner.offer.unauthorized ownership transfer initiated without the owner's authorization" else none
-    | .own .renounce => if ¬ inAuth m.owner auth then some "site=ac.owner.renounce.unauthorized" else none
-    | .onlyRole k r _ =>
-      if ¬ m.g k r then some s!"site=ac.only_role.no-role an #[only_role] function ran for {k} who does not hold role {r}"
-      else if ¬ auth.contains k then some "site=ac.only_role.no-auth an #[only_role] function ran without the caller authorizing" else none
-    | .hasRole k r ba _ =>
-      if ¬ m.g k r then some s!"site=ac.has_role.no-role a #[has_role] function ran for {k} who does not hold role {r}"
-      else if ba ∧ ¬ auth.contains k then some "site=ac.has_role.body-auth the body's require_auth was passed without authorization" else none
-    | .hasAnyRole k rs ba =>
-      if ¬ rs.any (fun r => m.g k r) then some s!"site=ac.has_any_role.no-role a #[has_any_role] function ran for {k} who holds none of the roles"
-      else if ba ∧ ¬ auth.contains k then some "site=ac.has_any_role.body-auth the body's require_auth was passed without authorization" else none
-    | .onlyAnyRole k rs =>
-      if ¬ rs.any (fun r => m.g k r) then some s!"site=ac.only_any_role.no-role an #[only_any_role] function ran for {k} who holds none of the roles"
-      else if ¬ auth.contains k then some "site=ac.only_any_role.no-auth an #[only_any_role] function ran without the caller authorizing" else none
-    | .ensureAdminOrRole r k =>
-      if ¬ mayAdminister m r k then some "site=ac.ensure_admin_or_role.unauthorized ensure_if_admin_or_admin_role passed for an account that is neither" else none
-    | .advance n =>
-      -- nothing that must persist (membership, indices, counts, role admins, existing roles,
-      -- admin, owner) may change while nobody touches the contract
-      if ¬ m.first ∧ o.stateStr ≠ m.stateStr then
-        some s!"site=ac.idle.lost persistent state changed by the mere passage of {n} ledgers: {m.stateStr} -> {o.stateStr}"
-      else none
-    | _ => none
-
-def roleOfOp : Op → Option Nat
-  | .grant _ r _ | .revoke _ r _ | .grantNoAuth _ r _ | .revokeNoAuth _ r _ | .renounce r _ => some r
-  | _ => none
-
-def isAdmHandover : Op → Bool
-  | .adm .accept | .adm .renounce => true
-  | _ => false
-def isOwnHandover : Op → Bool
-  | .own .accept | .own .renounce => true
-  | _ => false
+  monInit (optNat ws "admin") (optNat ws "owner")
 
 def check (m : Mon) (opl obs : String) : Mon × Option String :=
   match parseOp (words opl), parseObs obs with
-  | some (auth, op), some o =>
-    let g' := setStep m.g op o.ok
-    let touched := match roleOfOp op with
-      | some r => if m.touched.contains r then m.touched else r :: m.touched
-      | none => m.touched
-    let v := verdict m auth op o
-    -- holders change only by their own handshake; once renounced, nobody holds again
-    let v := v.orElse fun _ =>
-      if o.admin ≠ m.admin ∧ ¬ (o.ok ∧ isAdmHandover op) then
-        some s!"site=ac.admin.changed the admin changed {showOpt m.admin} -> {showOpt o.admin} outside accept / renounce"
-      else if o.owner ≠ m.owner ∧ ¬ (o.ok ∧ isOwnHandover op) then
-        some s!"site=ac.owner.changed the owner changed {showOpt m.owner} -> {showOpt o.owner} outside accept / renounce"
-      else if m.admin = none ∧ o.admin ≠ none then some "site=ac.admin.resurrected an admin appeared after the admin was renounced"
-      else if m.owner = none ∧ o.owner ≠ none then some "site=ac.owner.resurrected an owner appeared after ownership was renounced"
-      else none
-    -- the getters answer exactly as the plain set of granted-not-revoked pairs
-    let v := v.orElse fun _ => firstSome o.roles (checkRole g' o.ex)
-    let v := v.orElse fun _ =>
-      if ¬ nodupB o.ex then some "site=ac.existing.dup a role is listed twice in existing roles"
-      else if o.ex.length > 256 then some "site=ac.existing.max more than MAX_ROLES existing roles"
-      else if o.ex.any (fun r => ¬ (List.range N).any (fun a => g' a r)) then some "site=ac.existing.empty a role without members is listed in existing roles"
-      else if touched.any (fun r => (List.range N).any (fun a => g' a r) ∧ ¬ o.ex.contains r) then
-        some "site=ac.existing.missing a role with members is missing from existing roles"
-      else none
-    ({ m with g := g', touched, admin := o.admin, owner := o.owner,
-              ra := o.ra, stateStr := o.stateStr, first := false }, v)
+  | some (auth, op), some o => checkCore m auth op o
   | _, _ => (m, some s!"site=ac.parse unparsable op/observation: {opl} / {obs}")
 
 def machine : Machine where
